@@ -5,9 +5,9 @@ From Coq Require Import NArith List.
 From ACPI Require Import Lib.Bytes Lib.Sx Impl.Checksum Spec.ChecksumS Impl.AmlCore Spec.AmlCoreS Spec.Layout
   Impl.AmlTerm Spec.AmlTermS.
 From ACPI Require Import Impl.Xsdt Impl.Mcfg Impl.Madt Impl.Srat Impl.Slit Impl.Hmat Impl.Pptt Impl.Rhct Impl.Rimt
-  Impl.Viot Impl.Cedt Impl.Hest Impl.Rqsc Impl.Tpm2 Impl.Fadt Impl.Bert Impl.Spcr Impl.Facs Impl.Rsdp Impl.Sdt.
+  Impl.Viot Impl.Cedt Impl.Hest Impl.Rqsc Impl.Tpm2 Impl.Fadt Impl.Bert Impl.Spcr Impl.Facs Impl.Rsdp Impl.Sdt Impl.Misc.
 From ACPI Require Import Spec.XsdtS Spec.McfgS Spec.MadtS Spec.SratS Spec.SlitS Spec.HmatS Spec.PpttS Spec.RhctS Spec.RimtS
-  Spec.ViotS Spec.CedtS Spec.HestS Spec.RqscS Spec.Tpm2S Spec.FadtS Spec.BertS Spec.SpcrS Spec.FacsS Spec.RsdpS Spec.SdtS.
+  Spec.ViotS Spec.CedtS Spec.HestS Spec.RqscS Spec.Tpm2S Spec.FadtS Spec.BertS Spec.SpcrS Spec.FacsS Spec.RsdpS Spec.SdtS Spec.MiscS.
 Import ListNotations.
 Open Scope N_scope.
 
@@ -15,6 +15,7 @@ Open Scope N_scope.
    1 checksum accumulator; 2 create_pkg_length (hook); 3 integer constants; 4 Path::new + encode; 5 EISAName; 6 Uuid;
    10 XSDT 11 MCFG 12 MADT 13 SRAT 14 SLIT 15 HMAT 16 PPTT 17 RHCT 18 RIMT 19 VIOT 20 CEDT 21 HEST 22 RQSC
    23 Tpm2 24 TpmServer1_2 25 TpmClient1_2 26 FADT 27 BERT 28 SPCR 29 FACS 30 RSDP 31 Sdt
+   32 sdt::GenericAddress constructors and the associated size functions (Impl/Misc.v)
    40 one AML term; 41 a pair of AML terms (alternative constructions) *)
 Definition run_case0 (md : mode) (comp : N) (c : sx) : list ev :=
   match comp with
@@ -29,7 +30,7 @@ Definition run_case0 (md : mode) (comp : N) (c : sx) : list ev :=
   | 18 => rimt_case md c | 19 => viot_case md c | 20 => cedt_case md c | 21 => hest_case md c
   | 22 => rqsc_case md c | 23 => tpm2_case md c | 24 => tpmserver_case md c | 25 => tpmclient_case md c
   | 26 => fadt_case md c | 27 => bert_case md c | 28 => spcr_case md c | 29 => facs_case md c
-  | 30 => rsdp_case md c | 31 => sdt_case md c
+  | 30 => rsdp_case md c | 31 => sdt_case md c | 32 => misc_case md c
   | 40 => aml_case md c | 41 => aml_pair_case md c
   | _ => [EvPanic]
   end.
@@ -122,6 +123,7 @@ Definition oracle (prop comp : N) (c : sx) (impl : list ev) : bool :=
   else
   match prop, comp with
   | 17, 1 => ck_oracle c impl
+  | 2, 32 | 4, 32 => misc_oracle c impl
   | 7, 2 => pkglen_oracle c impl
   | 7, 40 => c07_frame_oracle c impl && c06_oracle c impl
   | 18, 2 => pkglen_oracle18 c impl
